@@ -4,3 +4,5 @@ import OsyrisProofs.C20
 #print axioms Osyris.C20.C20_rename_on_set
 #print axioms Osyris.C20.C20_shape_gate
 #print axioms Osyris.C20.C20_eq_iff
+#print axioms Osyris.C20.C20_dataset_refines_dict
+#print axioms Osyris.C20.C20_dataset_keys_nodup
